@@ -572,7 +572,21 @@ func VerifRoundTrips() {
 	verifAssert(perr == nil, "scenario operation plans")
 	levels := map[string]map[int]bool{}
 	vLevels(plan.RootSteps, 0, levels)
-	f.vPost(op.q, vars, op.opName)
+	_, ans := f.vPost(op.q, vars, op.opName)
+	// what is looked up once is still stitched into every place that needs it
+	if exp, valid := f.vReference(op.q, vars, op.opName); valid {
+		if data, ok := ans["data"].(map[string]interface{}); ok && ans["errors"] == nil {
+			for k := range exp {
+				if len(k) > 2 && k[:2] == "__" && k != "__typename" {
+					delete(exp, k)
+					delete(data, k)
+				}
+			}
+			vPrune(data)
+			vAssertSame("", data, exp)
+			verifReach("stitched answer compared")
+		}
+	}
 	calls := map[string]int{}
 	for _, u := range f.burl {
 		calls[u]++
